@@ -354,6 +354,14 @@ C14_RefitIsFresh ==
                 /\ m.ndata = NItems[m.data]
                 /\ m.edata = m.data
 
+\* C14, in the form the aged-object harness relies on (harness/aging.py): whatever the history, the part of the
+\* model that answers are computed from is that of a fresh object fitted on the data of the last fit.  (The mode
+\* order and the laziness flags are left out: compute() legitimately changes them.)
+Relevant(x) == [fitted |-> x.fitted, data |-> x.data, chain |-> x.chain, ndata |-> x.ndata, edata |-> x.edata,
+                namesOK |-> x.namesOK]
+C14_AgedEqualsFresh ==
+    m.fitted => Relevant(m) = Relevant(FitResult(MFresh, m.data, [s \in Stages |-> Rep(NItems[m.data], m.data)], FALSE))
+
 \* C14: every answer is computed from the last fit's data only
 C14_AnswersFromLastFit ==
     last.kind \in {"transform", "query", "inverse"} => last.used = {m.data}
